@@ -118,21 +118,26 @@ def uval(i):
     return 'u' + format(i, 'x')
 
 
-def canon_val(name, v):
+def canon_val(name, v, expected_src=None):
     if isinstance(v, str) and re.fullmatch(r'u[0-9a-f]+', v):
         return 'U:' + v[1:]
+    if name == 'CopySource':
+        # the value handed to CopyObject / UploadPartCopy must be exactly what the caller gave
+        if isinstance(v, dict) and v == expected_src:
+            return 'P'
+        return 'L:CopySource' + (str(sorted(v)) if isinstance(v, dict) else repr(v)).replace(' ', '').replace(',', ';')
     if name in STRUCT or (name == 'VersionId' and v == 'srcver'):
         return 'P'
     return 'L:' + str(v)
 
 
-def canon_calls(client):
+def canon_calls(recs, expected_src=None):
     out = []
-    for rec in client.log:
+    for rec in recs:
         kw = dict(rec['kwargs'])
         if 'body_len' in rec:
             kw['Body'] = b''
-        out.append((rec['op'], sorted((k, canon_val(k, v)) for k, v in kw.items())))
+        out.append((rec['op'], sorted((k, canon_val(k, v, expected_src)) for k, v in kw.items())))
     return out
 
 
@@ -163,31 +168,110 @@ class Env:
         return os.path.join(self.tmp, f'{tag}{self.n}')
 
 
-def size_sub(size):
-    from s3transfer.subscribers import BaseSubscriber
+def recording_client(calc):
+    """harness.fakes3.FakeS3 whose log keeps a SNAPSHOT (one level deep) of the keyword
+    arguments as they were at call time, so that a later mutation of a shared dictionary
+    can neither hide nor fake anything."""
+    from harness.fakes3 import FakeS3
 
-    class ProvideSize(BaseSubscriber):
-        def on_queued(self, future, **kwargs):
-            future.meta.provide_transfer_size(size)
-    return ProvideSize()
+    class RecS3(FakeS3):
+        def _begin(self, op, kwargs):
+            rec = FakeS3._begin(self, op, kwargs)
+            rec['kwargs'] = {k: (dict(v) if isinstance(v, dict) else v) for k, v in rec['kwargs'].items()}
+            return rec
+    return RecS3(calc)
 
 
-def run_impl(env, mode, d, size):
-    """Run the real front-end; returns ('REJECT' | [(op, sorted kwargs)] | 'EXC:<type>', client)."""
-    from harness.fakes3 import FakeS3, NonSeekableReader, NonSeekableWriter
-    from s3transfer.manager import TransferManager, TransferConfig
-    from s3transfer.futures import NonThreadedExecutor
-    import s3transfer
-    data = bytes(range(65, 65 + size))
-    k = mode[0]
-    extra = dict(d)
-    client = FakeS3('when_supported' if (k == 'tmup' and mode[1]) else 'when_required')
-    try:
+class Rig:
+    """One front-end object (one TransferManager / S3Transfer / ProcessPoolDownloader) on one
+    recording client, with the caller-owned objects a user would naturally re-use between
+    transfers: the copy_source dictionary and the subscribers list.  step() runs one
+    transfer to completion and returns the calls it made."""
+
+    def __init__(self, env, mode):
+        from s3transfer.manager import TransferManager, TransferConfig
+        from s3transfer.futures import NonThreadedExecutor
+        from s3transfer.subscribers import BaseSubscriber
+        import s3transfer
+        self.env = env
+        self.kind = k = mode[0]
+        self.client = recording_client('when_supported' if (k == 'tmup' and mode[1]) else 'when_required')
+        self.copy_source = {'Bucket': 'sb', 'Key': 'sk'}
+        if k == 'tmcp' and mode[3]:
+            self.copy_source['VersionId'] = 'srcver'
+        self.copy_source_given = dict(self.copy_source)
+        self.size_holder = holder = {'size': None}
+
+        class ProvideSize(BaseSubscriber):
+            def on_queued(self, future, **kwargs):
+                if holder['size'] is not None:
+                    future.meta.provide_transfer_size(holder['size'])
+        self.subscribers = [ProvideSize()]
+        self.subscribers_given = list(self.subscribers)
+        self.manager = self.legacy = self.pool = None
         if k in ('tmup', 'tmdl', 'tmcp', 'tmdel'):
             cfg = TransferConfig(multipart_threshold=THRESHOLD, multipart_chunksize=CHUNK, io_chunksize=3)
-            with TransferManager(client, cfg, executor_cls=NonThreadedExecutor) as m:
+            self.manager = TransferManager(self.client, cfg, executor_cls=NonThreadedExecutor)
+        elif k in ('legup', 'legdl'):
+            self.legacy = s3transfer.S3Transfer(self.client, s3transfer.TransferConfig(
+                multipart_threshold=THRESHOLD, multipart_chunksize=CHUNK))
+        else:
+            self._init_pool()
+
+    def _init_pool(self):
+        """The real ProcessPoolDownloader (validation, request) with the real GetObjectSubmitter
+        and GetObjectWorker, whose loops are run by hand in this process over plain queues."""
+        import multiprocessing
+        from s3transfer import processpool as pp
+        client = self.client
+
+        class Factory:
+            def create_client(self):
+                return client
+
+        real_q = multiprocessing.Queue
+        multiprocessing.Queue = lambda *a, **k: queue.Queue()
+        try:
+            d = pp.ProcessPoolDownloader(config=pp.ProcessTransferConfig(
+                multipart_threshold=THRESHOLD, multipart_chunksize=CHUNK, max_request_processes=1))
+        finally:
+            multiprocessing.Queue = real_q
+        d._transfer_monitor = pp.TransferMonitor()
+        d._started = True            # nothing is started: the loops are run by hand in step()
+        self.pool = d
+        self.pp = pp
+        self.submitter = pp.GetObjectSubmitter(
+            transfer_config=d._transfer_config, client_factory=Factory(),
+            transfer_monitor=d._transfer_monitor, osutil=d._osutil,
+            download_request_queue=d._download_request_queue, worker_queue=d._worker_queue)
+        self.submitter._client = self.submitter._client_factory.create_client()
+        self.worker = pp.GetObjectWorker(queue=d._worker_queue, client_factory=Factory(),
+                                         transfer_monitor=d._transfer_monitor, osutil=d._osutil)
+        self.worker._client = self.worker._client_factory.create_client()
+
+    def close(self):
+        if self.manager is not None:
+            self.manager.shutdown()
+        if self.pool is not None:
+            self.pool._started = False
+
+    def step(self, mode, extra, size):
+        """extra is passed to the front-end AS IS (the caller's object, or None)."""
+        from harness.fakes3 import NonSeekableReader, NonSeekableWriter
+        assert mode[0] == self.kind
+        env, client, k = self.env, self.client, self.kind
+        data = bytes(range(65, 65 + size))
+        n0 = len(client.log)
+
+        def rejected(e):
+            if 'Invalid extra_args key' in str(e):
+                return 'REJECT' if len(client.log) == n0 else 'REJECT-AFTER-REQUESTS'
+            return None
+        try:
+            if self.manager is not None:
+                m = self.manager
+                variant = (len(extra or {}) + size) % 3   # source / destination kind: all go through the same _submit
                 try:
-                    variant = (len(d) + size) % 3      # source / destination kind: all go through the same _submit
                     if k == 'tmup':
                         if variant == 0:
                             src_obj = io.BytesIO(data)
@@ -197,105 +281,121 @@ def run_impl(env, mode, d, size):
                                 f.write(data)
                         else:
                             src_obj = NonSeekableReader(data)
-                        fut = m.upload(src_obj, 'b', 'k', extra_args=extra)
+                        fut = m.upload(src_obj, 'b', 'k', extra_args=extra, subscribers=self.subscribers)
                     elif k == 'tmdl':
                         client.objects[('b', 'k')] = data
-                        subs = [size_sub(size)] if mode[1] else None
+                        self.size_holder['size'] = size if mode[1] else None
                         dst = io.BytesIO() if variant == 0 else (env.path('dst') if variant == 1 else NonSeekableWriter())
-                        fut = m.download('b', 'k', dst, extra_args=extra, subscribers=subs)
+                        fut = m.download('b', 'k', dst, extra_args=extra, subscribers=self.subscribers)
                     elif k == 'tmcp':
                         client.objects[('sb', 'sk')] = data
-                        src = {'Bucket': 'sb', 'Key': 'sk'}
-                        if mode[3]:
-                            src['VersionId'] = 'srcver'
-                        subs = [size_sub(size)] if mode[1] else None
-                        fut = m.copy(src, 'b', 'k', extra_args=extra, subscribers=subs)
+                        self.size_holder['size'] = size if mode[1] else None
+                        fut = m.copy(self.copy_source, 'b', 'k', extra_args=extra, subscribers=self.subscribers)
                     else:
                         client.objects[('b', 'k')] = data
-                        fut = m.delete('b', 'k', extra_args=extra)
+                        fut = m.delete('b', 'k', extra_args=extra, subscribers=self.subscribers)
                 except ValueError as e:
-                    if 'Invalid extra_args key' in str(e):
-                        return ('REJECT' if not client.log else 'REJECT-AFTER-REQUESTS'), client
+                    r = rejected(e)
+                    if r:
+                        return r
                     raise
                 fut.result()
-        elif k == 'legup':
-            path = env.path('up')
-            with open(path, 'wb') as f:
-                f.write(data)
-            t = s3transfer.S3Transfer(client, s3transfer.TransferConfig(
-                multipart_threshold=THRESHOLD, multipart_chunksize=CHUNK))
-            try:
-                t.upload_file(path, 'b', 'k', extra_args=extra)
-            except ValueError as e:
-                if 'Invalid extra_args key' in str(e):
-                    return ('REJECT' if not client.log else 'REJECT-AFTER-REQUESTS'), client
-                raise
-        elif k == 'legdl':
-            client.objects[('b', 'k')] = data
-            t = s3transfer.S3Transfer(client, s3transfer.TransferConfig(
-                multipart_threshold=THRESHOLD, multipart_chunksize=CHUNK))
-            try:
-                t.download_file('b', 'k', env.path('dl'), extra_args=extra)
-            except ValueError as e:
-                if 'Invalid extra_args key' in str(e):
-                    return ('REJECT' if not client.log else 'REJECT-AFTER-REQUESTS'), client
-                raise
-        else:
-            client.objects[('b', 'k')] = data
-            r = run_pool(env, client, extra, size if mode[1] else None)
-            if r is not None:
-                return r, client
-    except Exception as e:   # noqa: BLE001  -- canonicalised, compared with the model like any output
-        return f'EXC:{type(e).__name__}', client
-    return canon_calls(client), client
+            elif k == 'legup':
+                path = env.path('up')
+                with open(path, 'wb') as f:
+                    f.write(data)
+                try:
+                    self.legacy.upload_file(path, 'b', 'k', extra_args=extra)
+                except ValueError as e:
+                    r = rejected(e)
+                    if r:
+                        return r
+                    raise
+            elif k == 'legdl':
+                client.objects[('b', 'k')] = data
+                try:
+                    self.legacy.download_file('b', 'k', env.path('dl'), extra_args=extra)
+                except ValueError as e:
+                    r = rejected(e)
+                    if r:
+                        return r
+                    raise
+            else:
+                client.objects[('b', 'k')] = data
+                d, pp = self.pool, self.pp
+                try:
+                    fut = d.download_file('b', 'k', env.path('pool'), extra_args=extra,
+                                          expected_size=size if mode[1] else None)
+                except ValueError as e:
+                    r = rejected(e)
+                    if r:
+                        return r if d._download_request_queue.empty() else 'REJECT-AFTER-REQUESTS'
+                    raise
+                d._download_request_queue.put(pp.SHUTDOWN_SIGNAL)
+                self.submitter._do_run()
+                d._worker_queue.put(pp.SHUTDOWN_SIGNAL)
+                self.worker._do_run()
+                exc = d._transfer_monitor.get_exception(fut.meta.transfer_id)
+                if exc is not None:
+                    return f'EXC:{type(exc).__name__}'
+                if not d._transfer_monitor.is_done(fut.meta.transfer_id):
+                    return 'EXC:NotDone'
+        except Exception as e:   # noqa: BLE001  -- canonicalised, compared with the model like any output
+            return f'EXC:{type(e).__name__}'
+        return canon_calls(client.log[n0:], self.copy_source_given)
+
+    def caller_objects_changed(self):
+        """Names of the caller-owned shared objects the library has modified."""
+        out = []
+        if self.copy_source != self.copy_source_given:
+            out.append(('copy_source', f'{self.copy_source_given} became {self.copy_source}'))
+        if len(self.subscribers) != len(self.subscribers_given) or \
+                any(a is not b for a, b in zip(self.subscribers, self.subscribers_given)):
+            out.append(('subscribers', 'the subscribers list was modified'))
+        return out
 
 
-def run_pool(env, client, extra, expected_size):
-    """ProcessPoolDownloader.download_file (real validation and request), then the real
-    GetObjectSubmitter and GetObjectWorker loops run in this process over plain queues."""
-    import multiprocessing
-    from s3transfer import processpool as pp
-
-    class Factory:
-        def create_client(self):
-            return client
-
-    real_q = multiprocessing.Queue
-    multiprocessing.Queue = lambda *a, **k: queue.Queue()
+def run_impl(env, mode, d, size):
+    """One transfer on a fresh front-end; returns ('REJECT' | [(op, sorted kwargs)] | 'EXC:<type>', rig)."""
+    rig = Rig(env, mode)
     try:
-        d = pp.ProcessPoolDownloader(config=pp.ProcessTransferConfig(
-            multipart_threshold=THRESHOLD, multipart_chunksize=CHUNK, max_request_processes=1))
+        r = rig.step(mode, dict(d), size)
     finally:
-        multiprocessing.Queue = real_q
-    d._transfer_monitor = pp.TransferMonitor()
-    d._started = True            # nothing is started: the loops below are run by hand
+        rig.close()
+    return r, rig
+
+
+def run_sequence(env, steps):
+    """Consecutive transfers on ONE front-end object sharing the caller-owned objects.
+    steps: [(mode, dict, size, flavour)]; flavour says what the caller passes as extra_args:
+      'same'  the one dictionary object the caller keeps re-using (cleared and refilled by the caller),
+      'fresh' a new dictionary, 'none' extra_args=None (only for an empty dictionary).
+    Returns [(result, [(which, description) of caller objects changed by this transfer])]."""
+    rig = Rig(env, steps[0][0])
+    shared = {}
+    out = []
     try:
-        try:
-            fut = d.download_file('b', 'k', env.path('pool'), extra_args=extra, expected_size=expected_size)
-        except ValueError as e:
-            if 'Invalid extra_args key' in str(e):
-                return 'REJECT' if not client.log and d._download_request_queue.empty() else 'REJECT-AFTER-REQUESTS'
-            raise
-        d._download_request_queue.put(pp.SHUTDOWN_SIGNAL)
-        sub = pp.GetObjectSubmitter(
-            transfer_config=d._transfer_config, client_factory=Factory(),
-            transfer_monitor=d._transfer_monitor, osutil=d._osutil,
-            download_request_queue=d._download_request_queue, worker_queue=d._worker_queue)
-        sub._client = sub._client_factory.create_client()
-        sub._do_run()
-        d._worker_queue.put(pp.SHUTDOWN_SIGNAL)
-        w = pp.GetObjectWorker(queue=d._worker_queue, client_factory=Factory(),
-                               transfer_monitor=d._transfer_monitor, osutil=d._osutil)
-        w._client = w._client_factory.create_client()
-        w._do_run()
-        exc = d._transfer_monitor.get_exception(fut.meta.transfer_id)
-        if exc is not None:
-            return f'EXC:{type(exc).__name__}'
-        if not d._transfer_monitor.is_done(fut.meta.transfer_id):
-            return 'EXC:NotDone'
+        for (mode, d, size, flavour) in steps:
+            if flavour == 'same':
+                shared.clear()
+                shared.update(d)
+                extra = shared
+            elif flavour == 'none' and not d:
+                extra = None
+            else:
+                extra = dict(d)
+            before_shared = dict(shared)
+            before_extra = dict(extra) if extra is not None else None
+            r = rig.step(mode, extra, size)
+            changed = rig.caller_objects_changed()
+            if extra is not None and extra != before_extra:
+                changed.append(('extra_args', f'{before_extra} became {extra}'))
+            if shared != before_shared and extra is not shared:
+                changed.append(('extra_args(previous transfer)', f'{before_shared} became {shared}'))
+            out.append((r, changed))      # nothing is restored: a leak must show in the next transfer
     finally:
-        d._started = False
-    return None
+        rig.close()
+    return out
 
 
 # ------------------------------------------------------------------ the model side
@@ -403,6 +503,10 @@ def oracle(mode, d, result):
                 a = ids.get(val[2:])
                 if a is None or target(a) != name:
                     bad(op, name, 'misrouted', f'{fe} {mn}: {op} received {name}={val}, the value of {a}')
+            elif name == 'CopySource' and val != 'P':
+                bad(op, name, 'copy-source-modified',
+                    f'{fe} {mn}: the CopySource value passed to {op} is not the caller\'s (keys {val[len("L:CopySource"):]}; '
+                    f'user arguments {list(d)})')
             elif val.startswith('L:'):
                 ok = False
                 if upload_mp and fulls and name == 'ChecksumType' and val == 'L:FULL_OBJECT':
@@ -506,6 +610,95 @@ def gen_cases(ctx):
     return cases
 
 
+def gen_sequences(ctx):
+    """Consecutive transfers on one front-end object that share the caller-owned objects:
+    [[(mode, dict, size, flavour), ...]].  The first transfer carries one allowed argument,
+    the second none (same dictionary object cleared by the caller / a fresh {} / None); three-step
+    sequences add a transfer with another argument."""
+    seqs = []
+    nid = [0x10000]
+
+    def fresh():
+        nid[0] += 1
+        return uval(nid[0])
+
+    def sz(mode, j=0):
+        return (5 + j % 4) if is_multi(mode) else (1 + j % 3)
+
+    flav = ['same', 'fresh', 'none']
+    B = (False, True)
+    fams = []      # (first modes, second-transfer mode as a function of the first and a counter)
+    for ws in B:
+        fams.append(([('tmup', ws, mp) for mp in B], lambda m, j: ('tmup', m[1], bool(j % 2))))
+    fams.append(([('tmdl', kn, rg) for kn in B for rg in B], lambda m, j: ('tmdl', False, bool(j % 2))))
+    for sv in B:
+        fams.append(([('tmcp', kn, mp, sv) for kn in B for mp in B],
+                     lambda m, j: ('tmcp', False, bool(j % 2), m[3])))       # size discovered: HeadObject is issued
+    fams.append(([('tmdel',)], lambda m, j: ('tmdel',)))
+    fams.append(([('legup', mp) for mp in B], lambda m, j: ('legup', bool(j % 2))))
+    fams.append(([('legdl', rg) for rg in B], lambda m, j: ('legdl', bool(j % 2))))
+    fams.append(([('pool', kn, rg) for kn in B for rg in B], lambda m, j: ('pool', False, bool(j % 2))))
+    j = 0
+    for firsts, second in fams:
+        for m1 in firsts:
+            al = allowed_of(m1)
+            for a in al:
+                j += 1
+                m2 = second(m1, j)
+                seqs.append([(m1, {a: fresh()}, sz(m1, j), 'same'),
+                             (m2, {}, sz(m2, j), flav[j % 3])])
+            # three transfers: argument, nothing, another argument -- for the names with an interaction
+            special = [a for a in al if a.startswith('CopySource') or a.startswith('Checksum')
+                       or a in ('RequestPayer', 'ExpectedBucketOwner', 'MpuObjectSize', 'VersionId')]
+            for a in special:
+                j += 1
+                b = special[(special.index(a) + 1) % len(special)]
+                m2, m3 = second(m1, j), second(m1, j + 1)
+                seqs.append([(m1, {a: fresh()}, sz(m1, j), 'same'),
+                             (m2, {}, sz(m2, j), flav[j % 3]),
+                             (m3, {b: fresh()}, sz(m3, j), 'same')])
+    return seqs
+
+
+def seq_desc(steps):
+    return '>'.join(f"{mode_name(m)}({'+'.join(d)})" for (m, d, _s, _f) in steps)
+
+
+def seq_json(steps):
+    return {'sequence': [{'mode': list(m), 'dict': dict(d), 'size': s, 'extra_args_object': f,
+                          'front_end': fe_name(m), 'mode_name': mode_name(m)} for (m, d, s, f) in steps],
+            'shared': 'one front-end object, one client; the copy_source dictionary and the subscribers list are the '
+                      'same objects in every transfer; extra_args_object: same = the caller re-uses one dictionary object'}
+
+
+def check_sequence(ctx, env, steps, with_model=True):
+    """Run one sequence; oracle on every transfer with ITS OWN dictionary, caller objects unchanged.
+    Returns (results, [(signature, what)])."""
+    out = run_sequence(env, steps)
+    fe = fe_name(steps[0][0])
+    desc = seq_desc(steps)
+    fails = []
+    for i, ((mode, d, size, _fl), (r, changed)) in enumerate(zip(steps, out)):
+        for which, what in changed:
+            fails.append((f'route-seq:{fe}:{desc}:step{i + 1}:caller-object-mutated:{which}',
+                          f'{fe}: transfer {i + 1} of the sequence {desc} modified the caller\'s {which}: {what}'))
+        step_fails = oracle(mode, d, r)
+        if step_fails and i > 0:
+            alone, _rig = run_impl(env, mode, d, size)
+            alone_sigs = {sig for sig, _ in oracle(mode, d, alone)}
+        else:
+            alone_sigs = None
+        for sig, what in step_fails:
+            if alone_sigs is None or sig in alone_sigs:
+                fails.append((sig, what))            # not specific to the sequence: the single-transfer cell
+            else:
+                tail = ':'.join(sig.split(':')[3:])
+                fails.append((f'route-seq:{fe}:{desc}:step{i + 1}:{tail}',
+                              f'{fe}: in the sequence {desc} on one manager sharing the caller\'s objects, transfer {i + 1} '
+                              f'(extra_args {dict(d)}) made the calls {show(r)} -- {what}; the same transfer alone does not'))
+    return [r for r, _ in out], fails
+
+
 def case_json(mode, d, size):
     return {'mode': list(mode), 'dict': dict(d), 'size': size,
             'front_end': fe_name(mode), 'mode_name': mode_name(mode)}
@@ -531,21 +724,43 @@ def run(ctx):
                        'subsets: random subsets of each allow-list; malformed: names outside the allow-list alone and mixed with an allowed one. '
                        'Each case runs the real code on a recording client and the extracted model; compared: operation sequence and the exact '
                        'keyword arguments (names, user value ids, library literals) of every call. A case is distinct/non-trivial by its model command '
-                       'line (mode, part count, dictionary); the empty dictionaries are counted as trivial.')
+                       'line (mode, part count, dictionary); the empty dictionaries are counted as trivial. '
+                       'sequences: two (and three) consecutive transfers on ONE front-end object that share the caller-owned copy_source '
+                       'dictionary, subscribers list and (re-used) extra_args dictionary object -- first transfer with each allowed name, '
+                       'second with no argument; every transfer is compared with the model\'s routing of its own dictionary, the CopySource '
+                       'value must be the caller\'s, the caller\'s objects must be unchanged; distinct by the tuple of model command lines.')
     cases = gen_cases(ctx)
-    results = []
+    seqs = gen_sequences(ctx)
+    results, seq_results, seq_fails = [], [], []
     with Env() as env:
         for (stream, mode, d, size) in cases:
-            r, _client = run_impl(env, mode, d, size)
+            r, _rig = run_impl(env, mode, d, size)
             results.append(r)
+        for steps in seqs:
+            rs, fails = check_sequence(ctx, env, steps)
+            seq_results.append(rs)
+            seq_fails.append(fails)
     # search oracle on everything (cheap; needs no model)
-    flagged = set()
+    extra = {'broken': ctx.broken.what} if ctx.broken is not None else {}
+    flagged, flagged_seq = set(), set()
+    single_reports, seq_reports = [], []
     for idx, ((stream, mode, d, size), r) in enumerate(zip(cases, results)):
         for sig, what in oracle(mode, d, r):
             flagged.add(idx)
-            ctx.report(sig, what, {'kind': 'input', 'component': 'route', 'case': case_json(mode, d, size),
-                                   'recorded_calls': show(r),
-                                   **({'broken': ctx.broken.what} if ctx.broken is not None else {})})
+            single_reports.append((sig, what, {'kind': 'input', 'component': 'route', 'case': case_json(mode, d, size),
+                                               'recorded_calls': show(r), **extra}))
+    for idx, (steps, rs, fails) in enumerate(zip(seqs, seq_results, seq_fails)):
+        for sig, what in fails:
+            flagged_seq.add(idx)
+            rep = (sig, what, {'kind': 'history', 'component': 'route-seq', 'case': seq_json(steps),
+                               'recorded_calls': [show(r) for r in rs], **extra})
+            (seq_reports if sig.startswith('route-seq:') else single_reports).append(rep)
+    known = {k.get('signature') for k in ctx.known if k.get('status') == 'known' and k.get('property') == ctx.prop}
+    fresh_single = [x for x in single_reports if x[0] not in known]
+    # at most five violations are printed: make room for both kinds
+    for sig, what, rep in ([x for x in single_reports if x[0] in known] + fresh_single[:3] + seq_reports[:2]
+                           + fresh_single[3:] + seq_reports[2:]):
+        ctx.report(sig, what, rep)
     if ctx.broken is not None:
         # proof / build / translator broke: the oracle above was the search
         if not ctx.violations:
@@ -554,9 +769,10 @@ def run(ctx):
                        no_input=True)
         count_only(ctx, cases, results)
         return
-    # correspondence
+    # correspondence: single transfers
     lines = [model_line(mode, d, size) for (_s, mode, d, size) in cases]
-    model = common.run_model('route', lines)
+    seq_lines = [[model_line(mode, d, size) for (mode, d, size, _f) in steps] for steps in seqs]
+    model = common.run_model('route', lines + [l for ls in seq_lines for l in ls])
     mism = 0
     for idx, ((stream, mode, d, size), r, line, mo) in enumerate(zip(cases, results, lines, model)):
         cm = canon_model(mo)
@@ -573,14 +789,40 @@ def run(ctx):
                            {'kind': 'correspondence', 'theorem_or_correspondence': 'differential route',
                             'case': case_json(mode, d, size), 'impl': show(r), 'model': show(cm)}, no_input=True)
     ctx.cov['components']['route']['mismatches'] = mism
+    # correspondence: every transfer of every sequence against the model's routing of ITS OWN dictionary
+    # (route has no other input: no state is carried from one transfer to the next)
+    pos = len(lines)
+    smism = 0
+    for idx, (steps, rs, ls) in enumerate(zip(seqs, seq_results, seq_lines)):
+        ms = [canon_model(mo) for mo in model[pos:pos + len(ls)]]
+        pos += len(ls)
+        ctx.count('route-seq', 1, nontrivial_key=tuple(ls), transfers=len(steps), front_end=fe_name(steps[0][0]))
+        ctx.cov['evaluations'] += len(steps) - 1          # every transfer of the sequence was run and compared
+        for i, (r, cm) in enumerate(zip(rs, ms)):
+            if r != cm:
+                smism += 1
+                if idx not in flagged_seq:
+                    ctx.report(f'corr:route-seq:{fe_name(steps[0][0])}:{seq_desc(steps)}:step{i + 1}',
+                               f'model and implementation disagree on transfer {i + 1} of the sequence {seq_desc(steps)}: '
+                               f'impl={show(r)} model={show(cm)}',
+                               {'kind': 'correspondence', 'theorem_or_correspondence': 'differential route (sequence)',
+                                'case': seq_json(steps), 'impl': show(r), 'model': show(cm)}, no_input=True)
+    ctx.cov['components']['route-seq']['mismatches'] = smism
+    ctx.cov['sequences'] = len(seqs)
     ctx.cov['cells'] = sum(1 for c in cases if c[0] == 'cell')
     ctx.cov['exhaustive'] = True
-    ctx.cov['exhaustive_over'] = 'the cell stream (every mode x every allowed name alone); pairs/subsets/malformed are samples'
+    ctx.cov['exhaustive_over'] = ('the cell stream (every mode x every allowed name alone) and the two-transfer sequences '
+                                  '(every first mode x every allowed name, then an empty dictionary); '
+                                  'pairs/subsets/malformed/three-transfer sequences are samples')
     for stream in ('cell', 'pairs', 'subsets', 'malformed'):
         for (s, mode, d, size), r, line in zip(cases, results, lines):
             if s == stream and d and (stream != 'cell' or is_multi(mode)):
                 ctx.sample({'component': 'route-' + stream, 'model_cmd': line, 'impl_and_model_calls': show(r)}, limit=1)
                 break
+    for steps, rs, ls in zip(seqs, seq_results, seq_lines):
+        if steps[0][0][0] == 'tmcp' and 'CopySourceIfMatch' in steps[0][1]:
+            ctx.sample({'component': 'route-seq', 'model_cmds': ls, 'impl_and_model_calls': [show(r) for r in rs]}, limit=1)
+            break
 
 
 def count_only(ctx, cases, results):
@@ -591,6 +833,19 @@ def count_only(ctx, cases, results):
 
 def replay(ctx, data):
     case = data.get('case') or {}
+    if isinstance(case, dict) and 'sequence' in case:
+        steps = [(tuple(st['mode']), dict(st['dict']), int(st['size']), st.get('extra_args_object', 'same'))
+                 for st in case['sequence']]
+        with Env() as env:
+            rs, fails = check_sequence(ctx, env, steps)
+        for i, r in enumerate(rs):
+            print(f'transfer {i + 1}:', show(r))
+        for sig, what in fails:
+            print('oracle:', sig, '--', what)
+        want = data.get('signature') or ''
+        if want.startswith('route'):
+            return any(sig == want for sig, _ in fails)
+        return bool(fails)
     if isinstance(case, dict) and 'mode' in case and 'dict' in case:
         mode = tuple(case['mode'])
         d = dict(case['dict'])
